@@ -16,7 +16,8 @@ def base_cfg(draw, limits="loose", multi_strategy=True, tx_limits=(5000,), custo
         spec["number_of_winners"] = 2 if nr > 2 else 1
     if line and draw(st.integers(0, 4)) == 0:
         iv = draw(st.sampled_from([0.5, 1.0]))
-        spec["ladder"] = {"type": "LINE_RANGE", "min": 0.5, "max": 0.5 + 400 * iv, "interval": iv}
+        # short ranges (total-goals style 0.5 .. 10.5) make lines below 2.0 common; long ones as for runs / points
+        spec["ladder"] = {"type": "LINE_RANGE", "min": 0.5, "max": 0.5 + draw(st.sampled_from([10, 20, 400])) * iv, "interval": iv}
         spec["betting_type"] = "LINE"
         spec["market_type"] = mt = "LINE"
     if handicaps and draw(st.integers(0, 2)) == 0:
